@@ -127,16 +127,35 @@ theorem truncInt_spec (q : K) :
     rw [e]; push_cast
     constructor <;> linarith
 
+/-- Truncation toward zero is odd. -/
+theorem truncInt_neg (q : K) : truncInt (-q) = -truncInt q := by
+  unfold truncInt
+  rcases lt_trichotomy q 0 with h | h | h
+  · rw [if_neg (not_lt.mpr (neg_nonneg.mpr h.le)), if_pos h]; simp
+  · subst h
+    have e : HasFloorInt.floorInt (0 : K) = ⌊(0 : K)⌋ := rfl
+    simp [e]
+  · rw [if_pos (neg_lt_zero.mpr h), if_neg (not_lt.mpr h.le)]; simp
+
+/-- The value `x % m` takes for a non-zero modulus. -/
+theorem fmod_of_ne (x m : K) (hm : m ≠ 0) :
+    fmod x m = some (x - ((truncInt (x / m) : ℤ) : K) * m) := by
+  unfold fmod
+  rw [if_pos (lt_or_gt_of_ne hm)]
+
+/-- `x % 0.0` is NaN – no value. -/
+theorem fmod_zero (x : K) : fmod x 0 = none := by
+  unfold fmod; rw [if_neg (by simp)]
+
 /-- `x % m` for `m > 0`: a remainder `r = x − n·m` (`n` an integer) of absolute value below `m`
 that has the sign of `x`. -/
 theorem fmod_spec (x m : K) (hm : 0 < m) :
-    ∃ n : ℤ, fmod x m = x - (n : K) * m ∧
-      (0 ≤ x → 0 ≤ fmod x m ∧ fmod x m < m) ∧ (x < 0 → -m < fmod x m ∧ fmod x m ≤ 0) := by
-  refine ⟨truncInt (x / m), rfl, ?_, ?_⟩
+    ∃ (r : K) (n : ℤ), fmod x m = some r ∧ r = x - (n : K) * m ∧
+      (0 ≤ x → 0 ≤ r ∧ r < m) ∧ (x < 0 → -m < r ∧ r ≤ 0) := by
+  refine ⟨_, truncInt (x / m), fmod_of_ne x m hm.ne', rfl, ?_, ?_⟩
   · intro hx
     have hq : 0 ≤ x / m := div_nonneg hx hm.le
     obtain ⟨h1, h2⟩ := (truncInt_spec (x / m)).1 hq
-    unfold fmod
     have e : x = x / m * m := by field_simp
     constructor
     · nlinarith
@@ -144,57 +163,89 @@ theorem fmod_spec (x m : K) (hm : 0 < m) :
   · intro hx
     have hq : x / m < 0 := div_neg_of_neg_of_pos hx hm
     obtain ⟨h1, h2⟩ := (truncInt_spec (x / m)).2 hq
-    unfold fmod
     have e : x = x / m * m := by field_simp
     constructor
     · nlinarith
     · nlinarith
 
+/-- The sign of the modulus is irrelevant to `%`. -/
+theorem fmod_neg_modulus (x m : K) : fmod x (-m) = fmod x m := by
+  rcases eq_or_ne m 0 with h | h
+  · subst h; simp
+  · rw [fmod_of_ne x m h, fmod_of_ne x (-m) (neg_ne_zero.mpr h), div_neg, truncInt_neg]
+    congr 1; push_cast; ring
+
+theorem absS_eq (m : K) : absS m = |m| := by
+  unfold absS
+  rcases lt_or_ge m 0 with h | h
+  · rw [if_pos h, abs_of_neg h]
+  · rw [if_neg (not_lt.mpr h), abs_of_nonneg h]
+
 /-- `rem_euclid` by a positive modulus lands in `[0, m)` and differs from `x` by a whole number of
 moduli. -/
 theorem remEuclid_spec (x m : K) (hm : 0 < m) :
-    0 ≤ remEuclid x m ∧ remEuclid x m < m ∧ ∃ k : ℤ, remEuclid x m = x + (k : K) * m := by
-  obtain ⟨n, hn, hpos, hneg⟩ := fmod_spec x m hm
-  have habs : absS m = m := by unfold absS; rw [if_neg (not_lt.mpr hm.le)]
+    ∃ r : K, remEuclid x m = some r ∧ 0 ≤ r ∧ r < m ∧ ∃ k : ℤ, r = x + (k : K) * m := by
+  obtain ⟨r, n, hf, hn, hpos, hneg⟩ := fmod_spec x m hm
   unfold remEuclid
-  simp only []
-  rw [habs]
-  rcases lt_or_ge (fmod x m) 0 with hr | hr
-  · rw [if_pos hr]
+  rw [hf, absS_eq, abs_of_pos hm]
+  rcases lt_or_ge r 0 with hr | hr
+  · refine ⟨r + m, by simp only [if_pos hr], ?_⟩
     have hx : x < 0 := by
       by_contra hx
       exact absurd (hpos (not_lt.mp hx)).1 (not_le.mpr hr)
     obtain ⟨h1, _⟩ := hneg hx
-    refine ⟨by linarith, by linarith, -n + 1, ?_⟩
-    rw [hn]; push_cast; ring
-  · rw [if_neg (not_lt.mpr hr)]
-    have hlt : fmod x m < m := by
-      rcases lt_or_ge x 0 with hx | hx
-      · linarith [(hneg hx).2]
-      · exact (hpos hx).2
-    exact ⟨hr, hlt, -n, by rw [hn]; push_cast; ring⟩
+    exact ⟨by linarith, by linarith, -n + 1, by rw [hn]; push_cast; ring⟩
+  · refine ⟨r, by simp only [if_neg (not_lt.mpr hr)], hr, ?_, -n, by rw [hn]; push_cast; ring⟩
+    rcases lt_or_ge x 0 with hx | hx
+    · linarith [(hneg hx).2]
+    · exact (hpos hx).2
 
-/-- `wrap_range`: for a proper interval the wrapped angle is inside it, the upper end excluded
-(in exact arithmetic; `f32` rounding can close it, which the correspondence check reports). -/
-theorem wrap_range (a mn mx : K) (h : mn < mx) : mn ≤ wrap a mn mx ∧ wrap a mn mx < mx := by
-  obtain ⟨h0, h1, _⟩ := remEuclid_spec (a - mn) (mx - mn) (sub_pos.mpr h)
-  unfold wrap
-  constructor <;> linarith
+/-- A zero modulus gives NaN, and the sign of the modulus does not matter (`rhs.abs()`). -/
+theorem remEuclid_zero (x : K) : remEuclid x 0 = none := by
+  unfold remEuclid; rw [fmod_zero]
+
+theorem remEuclid_neg_modulus (x m : K) : remEuclid x (-m) = remEuclid x m := by
+  unfold remEuclid
+  rw [fmod_neg_modulus, absS_eq, absS_eq, abs_neg]
+
+/-- `wrap_range`: for a proper interval (`min < max`) `wrap` has a value, inside the interval, the
+upper end excluded (in exact arithmetic; `f32` rounding can close it, which the correspondence
+check reports and the oracle accepts only as a rounding artefact). -/
+theorem wrap_range (a mn mx : K) (h : mn < mx) :
+    ∃ w, wrap a mn mx = some w ∧ mn ≤ w ∧ w < mx := by
+  obtain ⟨r, hr, h0, h1, _⟩ := remEuclid_spec (a - mn) (mx - mn) (sub_pos.mpr h)
+  exact ⟨mn + r, by unfold wrap; rw [hr], by linarith, by linarith⟩
 
 /-- `wrap_congruent`: the wrapped angle differs from the input by a whole number of interval
 lengths. -/
 theorem wrap_congruent (a mn mx : K) (h : mn < mx) :
-    ∃ k : ℤ, wrap a mn mx - a = (k : K) * (mx - mn) := by
-  obtain ⟨_, _, k, hk⟩ := remEuclid_spec (a - mn) (mx - mn) (sub_pos.mpr h)
-  exact ⟨k, by unfold wrap; rw [hk]; ring⟩
+    ∃ (w : K) (k : ℤ), wrap a mn mx = some w ∧ w - a = (k : K) * (mx - mn) := by
+  obtain ⟨r, hr, _, _, k, hk⟩ := remEuclid_spec (a - mn) (mx - mn) (sub_pos.mpr h)
+  exact ⟨mn + r, k, by unfold wrap; rw [hr], by rw [hk]; ring⟩
+
+/-- The degenerate interval `max = min`: NaN, for every input (the span is a zero modulus). -/
+theorem wrap_degenerate (a mn : K) : wrap a mn mn = none := by
+  unfold wrap; rw [sub_self, remEuclid_zero]
+
+/-- A reversed interval (`max < min`) is not rejected: the span enters through `abs`, so the result
+lies in `[min, min + (min − max))` – *above* `min`, outside the interval the caller named – and is
+congruent to the input modulo `min − max`. -/
+theorem wrap_reversed (a mn mx : K) (h : mx < mn) :
+    ∃ (w : K) (k : ℤ), wrap a mn mx = some w ∧ mn ≤ w ∧ w < mn + (mn - mx) ∧
+      w - a = (k : K) * (mn - mx) := by
+  obtain ⟨r, hr, h0, h1, k, hk⟩ := remEuclid_spec (a - mn) (mn - mx) (sub_pos.mpr h)
+  have e : mx - mn = -(mn - mx) := by ring
+  refine ⟨mn + r, k, ?_, by linarith, by linarith, by rw [hk]; ring⟩
+  unfold wrap; rw [e, remEuclid_neg_modulus, hr]
 
 /-- The two facts characterise `wrap`: it is *the* representative of `a` in `[min, max)`. -/
 theorem wrap_unique (a mn mx w : K) (h : mn < mx) (hw0 : mn ≤ w) (hw1 : w < mx) (k : ℤ)
-    (hk : w - a = (k : K) * (mx - mn)) : wrap a mn mx = w := by
-  obtain ⟨r0, r1⟩ := wrap_range a mn mx h
-  obtain ⟨j, hj⟩ := wrap_congruent a mn mx h
+    (hk : w - a = (k : K) * (mx - mn)) : wrap a mn mx = some w := by
+  obtain ⟨v, hv, r0, r1⟩ := wrap_range a mn mx h
+  obtain ⟨v', j, hv', hj⟩ := wrap_congruent a mn mx h
+  rw [hv] at hv'; cases hv'
   have hm : 0 < mx - mn := sub_pos.mpr h
-  have hd : wrap a mn mx - w = ((j - k : ℤ) : K) * (mx - mn) := by push_cast; linarith
+  have hd : v - w = ((j - k : ℤ) : K) * (mx - mn) := by push_cast; linarith
   have hlt : |((j - k : ℤ) : K)| < 1 := by
     rw [abs_lt]
     constructor
@@ -209,34 +260,38 @@ theorem wrap_unique (a mn mx w : K) (h : mn < mx) (hw0 : mn ≤ w) (hw1 : w < mx
     exact Int.abs_lt_one_iff.mp this
   rw [hz] at hd
   simp at hd
-  linarith
+  rw [hv]; congr 1; linarith
 
 /-- An angle already inside the interval is left alone. -/
-theorem wrap_of_mem (a mn mx : K) (h0 : mn ≤ a) (h1 : a < mx) : wrap a mn mx = a :=
+theorem wrap_of_mem (a mn mx : K) (h0 : mn ≤ a) (h1 : a < mx) : wrap a mn mx = some a :=
   wrap_unique a mn mx a (lt_of_le_of_lt h0 h1) h0 h1 0 (by simp)
 
 /-- The upper bound itself is **not** a fixed point: it wraps to the lower bound (the interval is
 half-open). A result equal to `max` can therefore only be a rounding artefact. -/
-theorem wrap_max_eq_min (mn mx : K) (h : mn < mx) : wrap mx mn mx = mn :=
+theorem wrap_max_eq_min (mn mx : K) (h : mn < mx) : wrap mx mn mx = some mn :=
   wrap_unique mx mn mx mn h le_rfl h (-1) (by push_cast; ring)
 
 /-- More generally every `min + k·(max − min)` wraps to `min`. -/
 theorem wrap_multiple_eq_min (mn mx : K) (h : mn < mx) (k : ℤ) :
-    wrap (mn + (k : K) * (mx - mn)) mn mx = mn :=
+    wrap (mn + (k : K) * (mx - mn)) mn mx = some mn :=
   wrap_unique _ mn mx mn h le_rfl h (-k) (by push_cast; ring)
 
 /-- `wrap` is periodic: adding whole interval lengths to the input does not change it. -/
 theorem wrap_periodic (a mn mx : K) (h : mn < mx) (n : ℤ) :
     wrap (a + (n : K) * (mx - mn)) mn mx = wrap a mn mx := by
-  obtain ⟨r0, r1⟩ := wrap_range a mn mx h
-  obtain ⟨j, hj⟩ := wrap_congruent a mn mx h
+  obtain ⟨w, hw, r0, r1⟩ := wrap_range a mn mx h
+  obtain ⟨w', j, hw', hj⟩ := wrap_congruent a mn mx h
+  rw [hw] at hw'; cases hw'
+  rw [hw]
   exact wrap_unique _ mn mx _ h r0 r1 (j - n) (by push_cast; linarith)
 
-example : wrap (7 : ℚ) 0 (44/7) = 5/7 :=
+example : wrap (7 : ℚ) 0 (44/7) = some (5/7) :=
   wrap_unique 7 0 (44/7) (5/7) (by norm_num) (by norm_num) (by norm_num) (-1) (by norm_num)
 
-example : wrap (3 : ℚ) (-3) 3 = -3 := wrap_max_eq_min _ _ (by norm_num)
+example : wrap (3 : ℚ) (-3) 3 = some (-3) := wrap_max_eq_min _ _ (by norm_num)
 
-example : wrap (-1 : ℚ) (-3) 3 = -1 := wrap_of_mem _ _ _ (by norm_num) (by norm_num)
+example : wrap (-1 : ℚ) (-3) 3 = some (-1) := wrap_of_mem _ _ _ (by norm_num) (by norm_num)
+
+example : wrap (5 : ℚ) 2 2 = none := wrap_degenerate _ _
 
 end Retro.Props.C18
